@@ -33,7 +33,7 @@ ASSUMPTIONS = [
 ]
 
 CBS = ["on_open", "on_message", "on_data", "on_ping", "on_pong", "on_error"]
-CLEAN = ("server-close", "server-close-empty", "own-close")
+CLEAN = ("server-close", "server-close-empty", "server-close-rawreason", "own-close")
 ERRORS = ("eof", "rst", "protocol", "utf8", "ping-timeout", "refused", "reject", "kbd")
 
 
@@ -59,6 +59,11 @@ def attempt_spec(run):
         close_args = (code, reason.decode("utf-8"))
     elif kind == "server-close-empty":
         spec["timeline"].append([t_end, ["data", rm.encode_frame(1, rm.CLOSE, b"")]])
+    elif kind == "server-close-rawreason":
+        # only with skip_utf8_validation=True: the reason is not valid UTF-8 (what on_close gets as reason is not judged)
+        code = end.get("code", 1000)
+        spec["timeline"].append([t_end, ["data", rm.encode_frame(1, rm.CLOSE, struct.pack(">H", code) + end.get("reason", b"\xff\xfe"))]])
+        close_args = (code, None)
     elif kind == "eof":
         spec["timeline"].append([t_end, ["eof"]])
     elif kind == "rst":
@@ -155,6 +160,8 @@ def run_case(case):
                 rk = {"ping_interval": 5, "ping_timeout": 2}
             if r.get("lost_first"):
                 rk["reconnect"] = 0.5
+            if end["kind"] == "server-close-rawreason" or r.get("skip"):
+                rk["skip_utf8_validation"] = True
             nsock = len(net.sockets)
             t0 = sched.now
             exc, ret = None, None
@@ -207,7 +214,7 @@ def run_case(case):
         if bool(o["ret"]) != bool(errs):
             obs.fail(f"{tag}|return-value-vs-on_error|ret={bool(o['ret'])}-errors={len(errs)}", f"run_forever returned {o['ret']!r}, on_error calls: {[e[2] for e in errs]}")
         racing = kind == "thread-close"
-        if (kind in ("server-close", "server-close-empty") or (kind == "own-close" and end["in"] != "on_error")) and not r.get("lost_first"):
+        if (kind in ("server-close", "server-close-empty", "server-close-rawreason") or (kind == "own-close" and end["in"] != "on_error")) and not r.get("lost_first"):
             if errs:
                 obs.fail(f"{tag}|clean-ending-reported-as-error|{errs[0][2]}", f"on_error({errs[0][2]}) during a run that simply ended")
             if o["ret"] is not False and not errs:
@@ -217,6 +224,8 @@ def run_case(case):
         if len(closes) == 1 and not racing:
             got = tuple(tr[closes[0]][2:4])
             want = expect[ri]
+            if kind == "server-close-rawreason":
+                got = (got[0], None)
             if got != want:
                 obs.fail(f"{tag}|on_close-arguments", f"on_close{got}, expected {want}")
     return _cls(obs, case, sched)
@@ -256,12 +265,15 @@ TRIG = {"on_message": {"op": rm.TEXT, "p": b"TRIGGER"}, "on_data": {"op": rm.BIN
 
 @st.composite
 def ending(draw):
-    kind = draw(st.sampled_from(["server-close", "server-close", "server-close-empty", "eof", "rst", "protocol", "utf8", "ping-timeout", "refused", "reject",
+    kind = draw(st.sampled_from(["server-close", "server-close", "server-close-empty", "server-close-rawreason", "eof", "rst", "protocol", "utf8", "ping-timeout", "refused", "reject",
                                  "own-close", "own-close", "own-close", "thread-close", "thread-close", "thread-close", "kbd"]))
     e = {"kind": kind, "gap": draw(st.sampled_from([0.0, 0.5, 2.0, 12.0]))}
     if kind == "server-close":
         e["code"] = draw(st.sampled_from([1000, 1001, 1011, 3000, 4999]))
         e["reason"] = draw(st.sampled_from([b"", b"bye", "grüße".encode(), b"r" * 123]))
+    elif kind == "server-close-rawreason":
+        e["code"] = draw(st.sampled_from([1000, 1001, 4000]))
+        e["reason"] = draw(st.sampled_from([b"\xff\xfe", b"ok\xc3", b"\xed\xa0\x80"]))
     elif kind == "protocol":
         e["bad"] = draw(st.sampled_from([b"\xc1\x00", b"\x83\x00", b"\x80\x00", b"\x09\x00", b"\x88\x01\x00", b"\x88\x02\x00\x00", b"\x89\x7e\x00\x7e" + b"x" * 126]))
     elif kind == "reject":
@@ -296,6 +308,8 @@ def cases(draw):
             r["traffic"] = draw(traffic)
         runs.append(r)
     for r in runs:
+        if draw(st.integers(0, 5)) == 0 and r["ending"]["kind"] != "utf8":
+            r["skip"] = True  # run_forever(skip_utf8_validation=True); (ill-formed text is no ending then)
         if r["ending"]["kind"] in ("server-close", "server-close-empty", "own-close", "thread-close") and draw(st.integers(0, 3)) == 0:
             r["lost_first"] = draw(st.sampled_from([0.5, 1.0, 6.0]))
     c = {"runs": runs, "secure": draw(st.integers(0, 3)) == 0}
